@@ -1643,3 +1643,32 @@ def c20_s(ctx):
                       'overflow guard is a clip', 'K if res > K else res; -K if res < -K else res',
                       'the guard around the log ratio is not a clip (a value inside the range is '
                       'replaced, or the arms are swapped): `{}`'.format(show(v)[:80]), fn=m, node=r)
+
+
+@obligation('C20-t', 'T8', 'a requested shrinkage reaches the density: the covariance handed to the '
+            'normal log density is, on the glasso / Warton paths, the output of that estimator '
+            'called with the user\'s penalty', floor=2,
+            necessary='"after the optional shrinkage": if the estimator\'s result is computed and '
+                      'dropped, the likelihood silently is the unshrunk one')
+def c20_t(ctx):
+    f = ctx.fn('elfi.methods.bsl.pdf_methods:gaussian_syn_likelihood')
+    ex = ctx.ex(f)
+    cs = ctx.calls(f, 'ss.multivariate_normal.logpdf(*_)')
+    if not cs:
+        raise AnchorMissing('gaussian_syn_likelihood does not call multivariate_normal.logpdf')
+    for c in cs:
+        kw = dict((k.arg, k.value) for k in c.keywords)
+        cov = kw.get('cov', c.args[2] if len(c.args) > 2 else None)
+        if cov is None:
+            ctx.bad(f, 'covariance argument', 'the density is evaluated without a covariance',
+                    fn=f, node=c)
+            continue
+        t = ex.term(cov)
+        ctx.check(contains(t, 'graphical_lasso(_, alpha=penalty)[0]'), f,
+                  'glasso estimate reaches the density', 'cov <- graphical_lasso(S, alpha=penalty)[0]',
+                  'no path hands the graphical-lasso covariance (estimated with the user\'s '
+                  'penalty) to the density', fn=f, node=c)
+        ctx.check(contains(t, 'cov_warton(_, 1 - penalty)'), f,
+                  'Warton estimate reaches the density', 'cov <- cov_warton(S, 1 - penalty)',
+                  'no path hands the Warton covariance (gamma = 1 - penalty) to the density',
+                  fn=f, node=c)
